@@ -168,6 +168,14 @@ class _Fold(ast.NodeTransformer):
         return n
 
     def visit_Attribute(self, n: ast.Attribute):
+        v = n.value
+        if isinstance(v, ast.Call) and isinstance(v.func, ast.Name) and v.func.id in self.records and isinstance(n.ctx, ast.Load):
+            v = self.visit(v)  # keywords by field
+            for k in getattr(v, "keywords", []):
+                if k.arg == n.attr:
+                    return self.visit(k.value) if not isinstance(k.value, ast.Constant) else k.value
+            n.value = v
+            return n
         root = n
         while isinstance(root, ast.Attribute):
             root = root.value
@@ -421,6 +429,54 @@ class _Sub(ast.NodeTransformer):
     visit_ListComp = visit_SetComp = visit_DictComp = visit_GeneratorExp = _comp
 
 
+def alpha(e: ast.AST) -> ast.AST:
+    """Variables bound by comprehensions / lambdas get position names (_c0, _c1 ...): the spelling of a bound variable never matters."""
+    counter = [0]
+
+    class A(ast.NodeTransformer):
+        def __init__(self, m):
+            self.m = m
+
+        def visit_Name(self, n):
+            if n.id in self.m:
+                return ast.copy_location(ast.Name(id=self.m[n.id], ctx=n.ctx), n)
+            return n
+
+        def _comp(self, n):
+            m = dict(self.m)
+            gens = []
+            for g in n.generators:
+                it = A(dict(m)).visit(g.iter)
+                for nm in _names(g.target):
+                    m[nm] = f"_c{counter[0]}"
+                    counter[0] += 1
+                sub_ = A(m)
+                gens.append(ast.comprehension(target=sub_.visit(g.target), iter=it, ifs=[sub_.visit(i) for i in g.ifs], is_async=g.is_async))
+            n2 = copy.copy(n)
+            n2.generators = gens
+            sub_ = A(m)
+            for f in ("elt", "key", "value"):
+                if hasattr(n2, f):
+                    setattr(n2, f, sub_.visit(getattr(n2, f)))
+            return n2
+
+        visit_ListComp = visit_SetComp = visit_DictComp = visit_GeneratorExp = _comp
+
+        def visit_Lambda(self, n):
+            m = dict(self.m)
+            n2 = copy.deepcopy(n)
+            for a in n2.args.posonlyargs + n2.args.args + n2.args.kwonlyargs:
+                m[a.arg] = f"_c{counter[0]}"
+                counter[0] += 1
+                a.arg = m[a.arg]
+            n2.body = A(m).visit(n2.body)
+            return n2
+
+    if not any(isinstance(x, (ast.ListComp, ast.SetComp, ast.DictComp, ast.GeneratorExp, ast.Lambda)) for x in ast.walk(e)):
+        return e
+    return A({}).visit(copy.deepcopy(e))
+
+
 def subst(e: Optional[ast.AST], env: Dict[str, ast.AST]) -> Optional[ast.AST]:
     if e is None:
         return None
@@ -472,6 +528,8 @@ class Summariser:
         r = subst(e, env)
         if r is not None and (self.fold is not None or self.records):
             r = _Fold(self.fold or (lambda e: None), self.bound, self.records).visit(r)
+        if r is not None:
+            r = alpha(r)
         return r
 
     # -- machinery -------------------------------------------------------------
@@ -543,6 +601,20 @@ class Summariser:
                     truth = {k: v for k, v in truth.items() if not (self._mentions(k) & body_names)}
                     ld = loops_done | {n}
                 t = self.sub(node.ast, env)
+                if again:
+                    # the loop ends eventually: leave it, forgetting what its test said before the body ran
+                    keys = set()
+                    for a_ in ast.walk(t):
+                        if isinstance(a_, ast.expr):
+                            try:
+                                keys.add(canon(a_)[0])
+                            except Exception:
+                                pass
+                    tr2 = {k: v for k, v in truth.items() if PathSummary.plain(k) not in keys}
+                    for s, lab in succ:
+                        if lab == "F":
+                            yield from self._walk(s, env, tr2, hist, ld, effects, tuple(x for x in lstack if x != node.line))
+                    return
                 for tr2, new_atoms, val in self._decide(t, truth, env.get('%epochs', {})):
                     if val is None:
                         outs = succ
@@ -557,7 +629,10 @@ class Summariser:
                         for k, v in new_atoms.items():
                             h2.setdefault(k, (v, lstack, len(effects)))
                     for s, lab in outs:
-                        yield from self._walk(s, env, tr2, h2, ld, effects, lstack)
+                        ls2 = lstack
+                        if is_while:
+                            ls2 = tuple(x for x in lstack if x != node.line) + ((node.line,) if lab == "T" else ())
+                        yield from self._walk(s, env, tr2, h2, ld, effects, ls2)
                 return
             if node.kind == "for":
                 first = n not in loops_done
@@ -851,8 +926,13 @@ def _is_bool_expr(e: ast.AST) -> bool:
         (isinstance(e, ast.Call) and isinstance(e.func, ast.Name) and e.func.id in ("isinstance", "bool", "any", "all", "callable", "hasattr"))
 
 
+_DEFS: List[Dict[str, ast.AST]] = [{}]  # lazily-evaluated iterables bound once and used once (set by the _Reducer at work)
+
+
 def _as_genexp(e: ast.AST) -> Optional[ast.GeneratorExp]:
     """A generator-like view of: genexp, list comprehension, filter(lambda, it), map(lambda, it), list(<those>)."""
+    if isinstance(e, ast.Name) and e.id in _DEFS[0]:
+        return _as_genexp(_DEFS[0][e.id])
     if isinstance(e, ast.GeneratorExp):
         return e
     if isinstance(e, ast.ListComp):
@@ -893,6 +973,8 @@ def _rename(e: ast.AST, m: Dict[str, str]) -> ast.AST:
 
 def _reduction(e: ast.AST) -> Optional[Tuple[str, ast.GeneratorExp, Dict[str, Any]]]:
     """(kind, generator, extras) when *e* is a reduction over a generator-like expression."""
+    if getattr(e, "_sfa_kept", False):
+        return None
     if isinstance(e, (ast.ListComp,)):
         return "collect", _as_genexp(e), {}
     if isinstance(e, ast.SetComp):
@@ -929,6 +1011,19 @@ class _Reducer:
     def __init__(self, fn: ast.FunctionDef):
         self.n = 0
         self.taken = {x.id for x in ast.walk(fn) if isinstance(x, ast.Name)} | {a.arg for a in ast.walk(fn) if isinstance(a, ast.arg)}
+        stores: Dict[str, int] = {}
+        loads: Dict[str, int] = {}
+        vals: Dict[str, ast.AST] = {}
+        for n in ast.walk(fn):
+            if isinstance(n, ast.Name):
+                d = stores if isinstance(n.ctx, (ast.Store, ast.Del)) else loads
+                d[n.id] = d.get(n.id, 0) + 1
+            if isinstance(n, ast.Assign) and len(n.targets) == 1 and isinstance(n.targets[0], ast.Name):
+                vals[n.targets[0].id] = n.value
+        self.defs = {}
+        for nm, v in vals.items():
+            if stores.get(nm) == 1 and loads.get(nm) == 1 and (isinstance(v, ast.GeneratorExp) or (isinstance(v, ast.Call) and isinstance(v.func, ast.Name) and v.func.id in ("map", "filter"))):
+                self.defs[nm] = v
 
     def fresh(self, base: str) -> str:
         while True:
@@ -1065,6 +1160,23 @@ class _Reducer:
         pre = ast.copy_location(ast.Assign(targets=[ast.Name(id=t, ctx=ast.Store())], value=target), at)
         return [pre], Rep().visit(e)
 
+    def _flatten(self, g: ast.GeneratorExp) -> ast.GeneratorExp:
+        """Several generators as one: over chain(A, B) when the nest is 'for g in (A, B) for v in g' and only v is used, else over a generator of the bound variables."""
+        gens = g.generators
+        if len(gens) == 2 and isinstance(gens[0].target, ast.Name) and isinstance(gens[1].iter, ast.Name) and gens[1].iter.id == gens[0].target.id and not gens[0].ifs \
+                and isinstance(gens[0].iter, (ast.Tuple, ast.List)) and not any(isinstance(n, ast.Name) and n.id == gens[0].target.id for x in [g.elt] + list(gens[1].ifs) for n in ast.walk(x)):
+            it = ast.Call(func=ast.Name(id="chain", ctx=ast.Load()), args=list(gens[0].iter.elts), keywords=[])
+            return ast.GeneratorExp(elt=g.elt, generators=[ast.comprehension(target=gens[1].target, iter=it, ifs=list(gens[1].ifs), is_async=0)])
+        names = []
+        for c in gens:
+            for nm in _names(c.target):
+                if nm not in names:
+                    names.append(nm)
+        tup_l = ast.Tuple(elts=[ast.Name(id=n, ctx=ast.Load()) for n in names], ctx=ast.Load())
+        tup_s = ast.Tuple(elts=[ast.Name(id=n, ctx=ast.Store()) for n in names], ctx=ast.Store())
+        inner = ast.GeneratorExp(elt=tup_l, generators=copy.deepcopy(gens))
+        return ast.GeneratorExp(elt=g.elt, generators=[ast.comprehension(target=tup_s, iter=inner, ifs=[], is_async=0)])
+
     def _loops(self, g: ast.GeneratorExp, innermost: List[ast.stmt], at: ast.AST) -> List[ast.stmt]:
         """for/if nest of the generators around *innermost*."""
         body = innermost
@@ -1092,6 +1204,8 @@ class _Reducer:
             return ast.copy_location(ast.Assign(targets=[store()], value=v), at)
 
         brk = ast.copy_location(ast.Break(), at)
+        if len(g.generators) >= 2 and kind in ("any", "all", "first"):
+            g = self._flatten(g)
         single = len(g.generators) == 1
         if kind == "sum":
             if _is_bool_expr(g.elt) or (isinstance(g.elt, ast.Constant) and g.elt.value == 1):
@@ -1124,11 +1238,10 @@ class _Reducer:
                 pre = [ast.copy_location(ast.Assign(targets=[ast.Name(id=b, ctx=ast.Store())], value=g.elt), at)]
             step = _Sub({a: load()}).visit(copy.deepcopy(lam.body))
             return [assign(extra["init"])] + self._loops(g, pre + [assign(step)], at)
-        # not lowered: keep as an ordinary assignment
-        keep = copy.copy(at)
-        if isinstance(at, ast.Return):
-            return [assign(at.value)]
-        return [at]
+        # not lowered: keep as an ordinary assignment (marked, so that it is not looked at again)
+        v = at.value
+        v._sfa_kept = True
+        return [assign(v)]
 
 
 _lowered_plain = lowered
@@ -1137,7 +1250,11 @@ _lowered_plain = lowered
 def lowered(fn: ast.FunctionDef) -> ast.FunctionDef:  # noqa: F811  (conditional expressions, then reductions)
     new = _lowered_plain(fn)
     r = _Reducer(new)
-    new.body = r.block(new.body)
+    _DEFS[0] = r.defs
+    try:
+        new.body = r.block(new.body)
+    finally:
+        _DEFS[0] = {}
     # conditional expressions uncovered by the hoisting
     body = []
     for st in new.body:
